@@ -28,9 +28,17 @@ type vDAG struct {
 
 // vChooseDAG explores every ordered-parent DAG shape on n nodes (node 1 is the root; parents are earlier nodes,
 // 1..maxPar of them, distinct, order significant) and gives every node an arbitrary distinct non-zero version id.
+// vConcreteVids: version ids are 1..n in creation order (what a server issues) instead of arbitrary distinct ids.
+var vConcreteVids bool
+
 func vChooseDAG(n, maxPar int) *vDAG {
 	d := &vDAG{n: n, vids: make([]dvid.VersionID, n+1), uuids: make([]dvid.UUID, n+1), parents: make([][]int, n+1)}
 	for i := 1; i <= n; i++ {
+		if vConcreteVids {
+			d.vids[i] = dvid.VersionID(i)
+			d.uuids[i] = dvid.UUID(vh.Fresh("uuid"))
+			continue
+		}
 		d.vids[i] = dvid.VersionID(vh.U32("vid"))
 		vh.Assume(d.vids[i] != 0)
 		for j := 1; j < i; j++ {
